@@ -91,6 +91,36 @@ _plumbing("root")
 _plumbing("_solve")
 
 
+def _warm_start(method):
+    @harness("C08", method + ".warm_start", functions=[EQ + ":EqSystem." + method], kind="shape-bounded", samples=0)
+    def _(v):
+        """an explicit start vector (e.g. the previous solution of a titration) only starts the solver: the conservation
+        parameters and the sanity check still refer to the given initial concentrations"""
+        import numpy as np
+        from chempy.equilibria import EqSystem
+        es = _eqsys()
+        n = es.ns
+        x = _arr([v.real("x%d" % i, lo=-1, hi=100) for i in range(n)])
+        tag = {}
+        v.contract(EqSystem._result_is_sane, "_result_is_sane", None, lambda v_, self, init_concs, xx, rtol=1e-9: tag.setdefault("args", (init_concs, xx)) and "SANE")
+        fake = _FakeNeqSys(x, True)
+        c0 = np.array([55.5, 1e-7, 1e-7, 1e-3, 1e-3])
+        guess = np.array([55.4, 2e-7, 3e-7, 5e-4, 4e-4])
+        if method == "root":
+            rx, sol, sane = v.call(es.root, dict(zip(es.substances, c0)), x0=guess, neqsys=fake)
+        else:
+            rx, sol, sane = v.call(es._solve, c0, x0=guess, neqsys=fake)
+        (x0, params, kw), = fake.calls
+        v.prove("solver_started_from_the_guess", list(x0) == list(guess))
+        v.prove("parameters_are_the_initial_state_not_the_guess", list(params) == list(c0) + [float(k) for k in es.eq_constants()])
+        v.prove("sanity_against_the_initial_state", list(tag["args"][0]) == list(c0) and tag["args"][1] is x)
+    return _
+
+
+_warm_start("root")
+_warm_start("_solve")
+
+
 def _precip_system(v, solid_is_reactant=True, n=1):
     from chempy.chemistry import Equilibrium, Species
     from chempy.equilibria import EqSystem
